@@ -144,4 +144,26 @@ Ext(m, ctx) ==
          IN EDRec(1 + NumPushLen(m.n) + EDSumPk(es, 1) + nn - 1, TRUE, EDSumOps(es, 1) + 1 + (nn - 1),
               EDThreshSatData([q \in 1..nn |-> <<es[q].sat, es[q].dis>>], m.n),
               EDThreshDis(es, 1, EDD(0, 0, 0, 0, 0)))
+
+(***************************************************************************)
+(* Descriptor level: max_weight_to_satisfy of the output types that carry  *)
+(* a miniscript, as the wrappers compute it from the figures above         *)
+(* (bare.rs, sh.rs, segwitv0.rs, tr/mod.rs): the weight the satisfied      *)
+(* input adds over the empty one.  -1 where the library has no figure.     *)
+(* `depth` = Merkle depth of the leaf (tr).                                *)
+(***************************************************************************)
+EDVarintLen(n) == IF n < 253 THEN 1 ELSE IF n < 65536 THEN 3 ELSE 5
+EDPushOpLen(n) == IF n < 76 THEN 1 ELSE IF n < 256 THEN 2 ELSE IF n < 65536 THEN 3 ELSE 5
+EDWshWeight(e) == (EDVarintLen(e.sat.c + 1) - 1) + EDVarintLen(e.pk) + e.pk + e.sat.w
+DescMaxWeight(wrap, m, ctx, depth) ==
+  LET e == Ext(m, ctx) IN
+  IF ~e.sat.some THEN -1
+  ELSE CASE wrap = "bare" -> 4 * ((EDVarintLen(e.sat.s) - 1) + e.sat.s)
+         [] wrap = "sh" -> LET ss == EDPushOpLen(e.pk) + e.pk + e.sat.s IN 4 * ((EDVarintLen(ss) - 1) + ss)
+         [] wrap = "wsh" -> EDWshWeight(e)
+         [] wrap = "shwsh" -> 4 * ((EDVarintLen(35) - 1) + 35) + EDWshWeight(e)
+         [] wrap \in {"tr", "tr33"} ->
+              LET cb == 33 + 32 * depth IN
+              (EDVarintLen(e.sat.c + 2) - 1) + e.sat.w + EDVarintLen(e.pk) + e.pk + EDVarintLen(cb) + cb
+         [] OTHER -> -1
 =============================================================================
